@@ -96,7 +96,12 @@ C07_F1 == {C07_Call("vmod.r1a", <<<<C07_KA, C07_S("vmod.r1v")>>>>),
            C07_Call("vmod.r1a", <<<<C07_KA, C07_Call("vmod.r1b", <<>>)>>>>),
            C07_Call("vmod.r1a", <<<<C07_KA, C07_Unsafe(C07_S("vmod.r1w"))>>>>),               \* an argument marked !unsafe
            C07_Call("vmod.r1a", <<<<C07_KA, C07_Unsafe(C07_Call("vmod.r1b", <<>>))>>>>),
+           \* a nested dynamic argument evaluated BEFORE a reference to data / an argument that may be unsafe
+           C07_Call("vmod.r1a", <<<<C07_KA, C07_Call("vmod.r1b", <<>>)>>, <<SKey("b"), C07_XRef(<<C07_KD>>)>>>>),
+           C07_Call("vmod.r1a", <<<<C07_KA, C07_Call("vmod.r1b", <<>>)>>, <<SKey("b"), C07_Unsafe(C07_S("vmod.r1w"))>>>>),
+           C07_Bind("vmod.r1a", <<<<C07_KA, C07_Call("vmod.r1b", <<>>)>>, <<SKey("b"), C07_XRef(<<C07_KD>>)>>>>),
            C07_Bind("vmod.r1a", <<<<C07_KA, C07_S("vmod.r1v")>>>>),
+           C07_Call("vmod.r1a", <<<<C07_KA, SD("list", NoVal, <<<<IKey(0), C07_S("vmod.r1v")>>>>)>>>>),      \* a list argument (may be !extend-ed)
            C07_Import("vmod.r1a"),
            C07_Req, C07_S("vmod.r1v"), SD("dict", NoVal, <<>>)}
 C07_D1 == {C07_S("vmod.r1x"), C07_Unsafe(C07_S("vmod.r1y")), SD("list", NoVal, <<<<IKey(0), C07_S("vmod.r1x")>>>>)}
@@ -113,6 +118,9 @@ C07_FLater(j) ==
         SD("list", NoVal, <<<<IKey(0), C07_S(v)>>>>),                                       \* ... by a list
         C07_S(r \o "s"),                                                                    \* target-name override by a string
         C07_Import(r \o "i"),
+        \* items moved into an existing (safe) list argument by an !extend that is itself marked unsafe
+        SD("dict", NoVal, <<<<C07_KA, [SD("extend", NoVal, <<<<IKey(0), C07_Call(r \o "e", <<>>)>>>>) EXCEPT !.form = "md", !.safe = "F"]>>>>),
+        SD("dict", NoVal, <<<<C07_KA, [SD("extend", NoVal, <<<<IKey(0), C07_S(v)>>>>) EXCEPT !.form = "tag"]>>>>),
         C07_Req, WithTag(SD("scalar", Atom("n", ""), <<>>), "del")}
 C07_Later(j) ==
     UNION { {SD("dict", NoVal, <<<<C07_KF, f>>>>), SD("dict", NoVal, <<<<C07_KF, C07_Unsafe(f)>>>>),
